@@ -30,11 +30,12 @@
      also with a single loop-side replica.
 
   What is proved instead (`…_partial`): the mechanism that makes every round identical — the cache
-  is exactly the sequence of batches handed out in round 1 (`cache_records_round_one_partial`), it
   never changes once the cached side has terminated (`cache_frozen_partial`), and a replay hands out
   exactly the whole cache, in order, without touching a channel (`cache_replayed_each_round_partial`).
-  Missing for full strength (blocked by F6/F6b): that a replay is started once per round and only in
-  rounds that are opened by a loop-side data batch.
+  Missing for full strength (blocked by F6/F6b): that the cache equals the batches handed out in
+  round 1 (by construction of `process_side`, binary.rs:182-186, exercised by the correspondence
+  check only), and that a replay is started once per round and only in rounds that are opened by
+  a loop-side data batch.
 -/
 import NoirVerif.Lemmas.BinaryStart
 namespace Noir.BinaryStart
@@ -51,8 +52,9 @@ theorem cache_read_once (st : State α) (hc : st.left.cached = true) (ht : st.le
   exact ⟨a, h.queue⟩
 
 /-- **C11 (read once), right side cached** (then the left side is not, binary.rs:136-139, and it has
-    ≥ 1 replica). `hfresh`/`hfin` hold in every reachable state (`fresh_reachable` in the lemmas:
-    until the cache is full, `cache_pointer = cache.len()`; an uncached side has an empty cache). -/
+    ≥ 1 replica). `hfresh`/`hfin` hold initially and are preserved by every step (they are fields of
+    the invariant `RightDone`): until the cache is full, `cache_pointer = cache.len()`
+    (binary.rs:185); an uncached side has an empty cache. -/
 theorem cache_read_once_right (st : State α) (hc : st.right.cached = true) (ho : st.left.cached = false)
     (ht : st.right.missingTerm = 0) (hn : 0 < st.left.instances)
     (hfresh : st.right.cacheFull = false → st.right.cache.length ≤ st.right.cachePointer)
@@ -98,6 +100,65 @@ theorem cache_replay_timeout_counterexample :
       ([.item (.left 41), .item .leftEnd, .item .rightEnd, .far,
         .item (.left 41), .item .leftEnd, .term], .done)
     ∧ c11Ok true (run 1 1 true false h).1 = false := by
+  decide
+
+
+/-- **C11 (the end is propagated once).** For every history from a state whose `Start` has not
+    terminated (every parallelism, every interleaving, cached or not): `Terminate` occurs in the
+    output at most once, only as the last element, and exactly when the run ended with `Terminate`
+    (after which nothing is pulled). -/
+theorem cached_terminate_once (st : State α) (h : st.start.missingTerm ≠ 0) (i : Nat) (ops : List (Op α)) :
+    ((runFrom st i ops).2.2.1 ≠ .done ∧ Elem.term ∉ (runFrom st i ops).2.1.map (·.2))
+    ∨ ((runFrom st i ops).2.2.1 = .done
+        ∧ ∃ pre, (runFrom st i ops).2.1.map (·.2) = pre ++ [Elem.term] ∧ Elem.term ∉ pre) :=
+  runFrom_term ops st i h
+
+/-- **C11 (the cache is frozen, `_partial`).** Once the cached left side has received all its
+    `Terminate`s a pull of any length leaves the cache as it is (so every later replay hands out the
+    same batches). -/
+theorem cache_frozen_partial (st : State α) (hc : st.left.cached = true) (ht : st.left.missingTerm = 0)
+    (fuel : Nat) : (pump fuel st).1.left.cache = st.left.cache :=
+  pump_leftDone_cache fuel st ⟨hc, ht, rfl⟩
+
+/-- **C11 (every replay is the whole cache, `_partial`).** In every state in which the receiver is
+    about to replay the left cache (cached side terminated, cache full, `k` batches still to
+    replay, the loop side not terminated), the next `k` calls of `select` return exactly the
+    remaining cached batches, in the order in which they were handed out in round 1, receive from
+    no channel, leave the cache and the loop side untouched and end with the cached side counted as
+    ended (`missing_flush_and_restart = 0`). Together with `cache_frozen_partial` this is why every
+    round that replays presents identical content. Missing for full strength: see the header
+    (which rounds replay, and how often — F6/F6b). -/
+theorem cache_replayed_each_round_partial (st : State α) (h : ReplayingL st) :
+    let k := st.left.cache.length - st.left.cachePointer
+    (selectIter k st).2 = (st.left.cache.drop st.left.cachePointer).map (Sel.replay true)
+    ∧ (selectIter k st).1.qL = st.qL ∧ (selectIter k st).1.qR = st.qR
+    ∧ (selectIter k st).1.left.cache = st.left.cache
+    ∧ (selectIter k st).1.left.cachePointer = st.left.cache.length
+    ∧ (selectIter k st).1.left.missingFar = 0
+    ∧ (selectIter k st).1.right = st.right :=
+  replayL_whole_cache _ st h rfl
+
+/-- **C09 (merge) / C11: without a cache nothing is lost, duplicated or reordered per side.** For every
+    history (any batches, any interleaving, any pulls) all of whose pulls ended in a receive timeout
+    (i.e. every prefix of a run before `Terminate`): the payloads sent on a side are exactly, in
+    order, the payloads of that side in the output followed by those still waiting in the channel.
+    (Per-iteration alignment of the `FlushAndRestart`s is checked by the oracle, not proved.) -/
+theorem bstart_nocache_conserves (nL nR : Nat) (ops : List (Op α))
+    (hidle : (runFrom (init nL nR false false) 0 ops).2.2.1 = .idle) :
+    let r := runFrom (init nL nR false false) 0 ops
+    payloads true (r.2.1.map (·.2)) ++ pendL r.1 = sentPayloads true ops
+    ∧ payloads false (r.2.1.map (·.2)) ++ pendR r.1 = sentPayloads false ops := by
+  have := runFrom_conserves ops (init nL nR false false) 0 rfl rfl hidle
+  simpa [pendL, pendR, init, inPayloads] using this
+
+/-- Non-vacuity of `bstart_nocache_conserves`: two iterations, the left `Terminate` waits in the
+    channel while the right side is still in its iteration. -/
+example :
+    let h : List (Op Nat) :=
+      Op.b true 0 [.item 1, .far] ++ [.enq true 0 [.term]] ++ Op.b false 0 [.item 2] ++ Op.b false 0 [.item 3, .far]
+    (runFrom (init 1 1 false false) 0 h).2.2.1 = .idle
+    ∧ (run 1 1 false false h).1 =
+        [.item (.left 1), .item .leftEnd, .item (.right 2), .item (.right 3), .item .rightEnd, .far] := by
   decide
 
 /-- Non-vacuity / the good case: one loop-side replica, three rounds, no receive timeout at the
